@@ -199,6 +199,15 @@ pub fn plan(property: &str, tier: Tier) -> Option<Plan>
             {
                 items.push(item(core_cfg("C02/plain3/L0/N5".into(), p3.clone(), &[], 5, 2, true), "plain3-L0-2trees", "N=5"));
             }
+            // the same programs issued through the World-level API (World::send_system_event, World::broadcast,
+            // SystemCommand::apply from a closure command)
+            let ns: &[u32] = if q { &[4] } else { &[4, 5] };
+            for &n in ns
+            {
+                let mut c = core_cfg(format!("C02/plain3-world/L1/N{n}"), p3.clone(), &[1], n, 1, true);
+                c.world_route = true;
+                items.push(item(c, "plain3-L1-world", &format!("N={n}")));
+            }
             // reactions of every kind, including polled ones (removal), in a small kind-rich universe
             let ns: &[u32] = if q { &[3] } else { &[3, 4] };
             for &n in ns
@@ -247,6 +256,22 @@ pub fn plan(property: &str, tier: Tier) -> Option<Plan>
                 c.max_runs = 400;
                 items.push(item(c, "rich2", &format!("N={n}")));
             }
+            // systems that vanish during their own run (or while commands for them are postponed)
+            let ns: &[u32] = if q { &[4] } else { &[4, 5, 6] };
+            for &n in ns
+            {
+                let c = core_cfg(format!("C09/plain3-despawn/L1/N{n}"), p3.clone(), &[1], n, 0, true);
+                items.push(item(c, "core+despawn", &format!("N={n}")));
+            }
+            // exclusive / erring systems in the same shapes (their cleanup and command application paths differ)
+            let ns: &[u32] = if q { &[4] } else { &[4, 5] };
+            for &n in ns
+            {
+                let mut c = core_cfg(format!("C09/mixed3/L1/N{n}"), vec![Variant::Exclusive, Variant::Erring, Variant::Plain], &[1], n, 0, false);
+                let inner = c.script.clone();
+                c.script = Arc::new(move |i: &DynInfo| { let mut v = inner(i); v.push(Op::Nop); v });
+                items.push(item(c, "mixed3+nop", &format!("N={n}")));
+            }
             reports = vec!["C09"];
             rule = "runner-core programs plus plain commands, and kind-rich programs (insertion / mutation / removal \
                 reactions, events); non-trivial = at least one run; distinct = distinct canonical trace".into();
@@ -288,6 +313,33 @@ pub fn plan(property: &str, tier: Tier) -> Option<Plan>
             for &n in ns
             {
                 items.push(item(core_cfg(format!("C12/plain3/L1/N{n}"), p3.clone(), &[1], n, 0, true), "core3", &format!("N={n}")));
+            }
+            // the same deliveries with an exclusive sender / target and an error-returning target
+            let ns: &[u32] = if q { &[3] } else { &[4, 5] };
+            for &n in ns
+            {
+                for (label, variants) in [("excl-plain", vec![Variant::Exclusive, Variant::Plain]), ("err-excl", vec![Variant::Erring, Variant::Exclusive])]
+                {
+                    let mut c = Config::base(&format!("C12/deliver2-{label}/N{n}"));
+                    c.actors = variants;
+                    c.n_ents = 1;
+                    c.setup = { let mut s = vec![Op::Insert(Comp::A, 0, 0)]; s.extend(rich_setup(&[0, 1], &[0], false, false)); s };
+                    c.fixed_top = vec![Op::Run(0)];
+                    c.script = Arc::new(|i: &DynInfo| {
+                        if i.runs_so_far > 2 { return Vec::new(); }
+                        let mut v = Vec::new();
+                        for a in i.ready_actors() { v.push(Op::Run(a)); v.push(Op::SysEvent(a)); }
+                        v.push(Op::Broadcast(Ev::A));
+                        v.push(Op::EntityEvent(Ev::A, 0));
+                        v.push(Op::Mutate(Comp::A, 0, How::GetMut));
+                        v
+                    });
+                    c.budget = n;
+                    c.max_per_run = n;
+                    c.max_runs = 400;
+                    c.sym_actors = vec![];
+                    items.push(item(c, &format!("deliver2-{label}"), &format!("N={n}")));
+                }
             }
             reports = vec!["C12"];
             rule = "one or two sender runs delivering up to N items of every mix of kinds {Run, SysEvent, Broadcast, \
@@ -469,6 +521,41 @@ pub fn plan(property: &str, tier: Tier) -> Option<Plan>
             }
             if is3
             {
+                let ns: &[u32] = if q { &[3] } else { &[3, 4] };
+                for &n in ns
+                {
+                    let mut c = Config::base(&format!("C03/rich-world/N{n}"));
+                    c.world_route = true;
+                    c.actors = vec![Variant::Plain, Variant::Plain];
+                    c.n_ents = 1;
+                    c.setup = { let mut s = vec![Op::Insert(Comp::A, 0, 0)]; s.extend(rich_setup(&[0, 1], &[0], true, true)); s };
+                    c.fixed_top = vec![Op::Run(0)];
+                    c.script = rich_alphabet(true, true, true, None);
+                    c.budget = n;
+                    c.max_runs = 600;
+                    items.push(item(c, "rich-world", &format!("N={n}")));
+                }
+            }
+            if is3
+            {
+                // exclusive and error-returning reactors reading every kind
+                let ns: &[u32] = if q { &[3] } else { &[3, 4] };
+                for &n in ns
+                {
+                    let mut c = Config::base(&format!("C03/variants/N{n}"));
+                    c.actors = vec![Variant::Exclusive, Variant::Erring];
+                    c.n_ents = 1;
+                    c.setup = { let mut s = vec![Op::Insert(Comp::A, 0, 0)]; s.extend(rich_setup(&[0, 1], &[0], true, true)); s };
+                    c.fixed_top = vec![Op::Run(0)];
+                    c.script = rich_alphabet(true, true, true, None);
+                    c.budget = n;
+                    c.max_runs = 600;
+                    c.sym_actors = vec![];
+                    items.push(item(c, "variants", &format!("N={n}")));
+                }
+            }
+            if is3
+            {
                 // listeners that die while events are in flight: a reaction scheduled for a dead reactor is skipped in
                 // the middle of another event's listeners, which must still read their own event
                 let ns: &[u32] = if q { &[3] } else { &[3, 4] };
@@ -553,6 +640,33 @@ pub fn plan(property: &str, tier: Tier) -> Option<Plan>
                 c.max_runs = 400;
                 items.push(item(c, "faults", &format!("N={n}")));
             }
+            {
+                let ns: &[u32] = if q { &[3] } else { &[4, 5] };
+                for &n in ns
+                {
+                    let mut c = Config::base(&format!("C05/faults-world/N{n}"));
+                    c.world_route = true;
+                    c.actors = vec![Variant::Plain, Variant::Plain, Variant::NoTake];
+                    c.n_ents = 1;
+                    c.setup = vec![
+                        Op::Register(0, Bundle::two(Trig::Broadcast(Ev::A), Trig::EntityEvent(Ev::A, 0)), Mode::Persistent),
+                        Op::Register(1, Bundle::two(Trig::Broadcast(Ev::A), Trig::AnyEntityEvent(Ev::A)), Mode::Persistent),
+                        Op::Register(2, Bundle::one(Trig::EntityEvent(Ev::A, 0)), Mode::Persistent),
+                    ];
+                    let alpha: AlphabetFn = Arc::new(|i: &DynInfo| {
+                        let mut v = vec![Op::Broadcast(Ev::A), Op::Broadcast(Ev::B), Op::EntityEvent(Ev::A, 0)];
+                        for a in i.ready_actors() { v.push(Op::SysEvent(a)); v.push(Op::DespawnSys(a)); }
+                        v.push(Op::Despawn(0));
+                        v
+                    });
+                    c.script = alpha.clone();
+                    c.top = alpha;
+                    c.max_top = 2;
+                    c.budget = n;
+                    c.max_runs = 400;
+                    items.push(item(c, "faults-world", &format!("N={n}")));
+                }
+            }
             // exactly one listener per event (the reader count of one): a separate universe, because with persistent
             // registrations the number of listeners of a type never shrinks
             let ns: &[u32] = if q { &[4] } else { &[4, 5, 6] };
@@ -578,6 +692,32 @@ pub fn plan(property: &str, tier: Tier) -> Option<Plan>
                 c.budget = n;
                 c.max_runs = 400;
                 items.push(item(c, "single", &format!("N={n}")));
+            }
+            // exclusive, error-returning and non-taking listeners under the same faults
+            let ns: &[u32] = if q { &[3] } else { &[4, 5] };
+            for &n in ns
+            {
+                let mut c = Config::base(&format!("C05/variants/N{n}"));
+                c.actors = vec![Variant::Exclusive, Variant::Erring, Variant::NoTake];
+                c.n_ents = 1;
+                c.setup = vec![
+                    Op::Register(0, Bundle::two(Trig::Broadcast(Ev::A), Trig::EntityEvent(Ev::A, 0)), Mode::Persistent),
+                    Op::Register(1, Bundle::two(Trig::Broadcast(Ev::A), Trig::AnyEntityEvent(Ev::A)), Mode::Persistent),
+                    Op::Register(2, Bundle::two(Trig::EntityEvent(Ev::A, 0), Trig::Broadcast(Ev::A)), Mode::Persistent),
+                ];
+                let alpha: AlphabetFn = Arc::new(|i: &DynInfo| {
+                    let mut v = vec![Op::Broadcast(Ev::A), Op::EntityEvent(Ev::A, 0)];
+                    for a in i.ready_actors() { v.push(Op::SysEvent(a)); v.push(Op::DespawnSys(a)); }
+                    v.push(Op::Despawn(0));
+                    v
+                });
+                c.script = alpha.clone();
+                c.top = alpha;
+                c.max_top = 2;
+                c.budget = n;
+                c.max_runs = 400;
+                c.sym_actors = vec![];
+                items.push(item(c, "variants", &format!("N={n}")));
             }
             // reactions of other kinds (insertion / mutation / resource) nested between the readers of one event
             let ns: &[u32] = if q { &[3] } else { &[3, 4, 5] };
@@ -655,6 +795,9 @@ pub fn plan(property: &str, tier: Tier) -> Option<Plan>
                         let mut b: Vec<Bundle> = vec![Bundle::one(trigs2[0]), Bundle::two(trigs2[0], trigs2[1]), Bundle::two(trigs2[2], trigs2[3]),
                             Bundle::three(trigs2[0], trigs2[1], trigs2[0])];
                         b.push(Bundle::three(trigs2[0], trigs2[2], Trig::Despawn(1)));
+                        // a despawn trigger on the entity the alphabet can despawn: between the despawn and the poll that
+                        // detects it the registration still exists and can be revoked
+                        b.push(Bundle::two(Trig::Despawn(0), trigs2[0]));
                         b
                     };
                     c.top = Arc::new(move |i: &DynInfo| {
@@ -684,6 +827,36 @@ pub fn plan(property: &str, tier: Tier) -> Option<Plan>
                     c.final_gc = true;
                     c.max_runs = 200;
                     items.push(item(c, &format!("hist-{gname}"), &format!("D={d}")));
+                }
+                // fires issued through the World-level API
+                if is1
+                {
+                    let d = if q { 3 } else { 4 };
+                    let mut c = Config::base(&format!("C01/hist-world/{gname}/D{d}"));
+                    c.world_route = true;
+                    c.actors = vec![Variant::Plain, Variant::Plain];
+                    c.n_ents = 2;
+                    c.setup = vec![Op::Insert(Comp::A, 0, 0), Op::Insert(Comp::A, 1, 0), Op::Insert(Comp::B, 0, 0)];
+                    let trigs2 = trigs.clone();
+                    let fires2 = fires.clone();
+                    c.top = Arc::new(move |i: &DynInfo| {
+                        let mut v = Vec::new();
+                        for t in trigs2.iter()
+                        {
+                            if i.n_actors < 4 { v.push(Op::RegisterNew(Variant::Plain, Bundle::one(*t), Mode::Revokable)); }
+                            for a in 0..2u8 { v.push(Op::Register(a, Bundle::one(*t), Mode::Persistent)); }
+                        }
+                        for k in i.ready_tokens() { v.push(Op::Revoke(k)); }
+                        for f in fires2.iter() { v.push(*f); }
+                        v.push(Op::Despawn(0));
+                        v
+                    });
+                    c.max_top = d;
+                    c.budget = d;
+                    c.sym_actors = vec![vec![0, 1]];
+                    c.final_gc = true;
+                    c.max_runs = 200;
+                    items.push(item(c, &format!("hist-world-{gname}"), &format!("D={d}")));
                 }
                 // (c): edits while a dispatch is in flight
                 let ns: &[u32] = if q { &[3] } else { &[3, 4] };
@@ -953,6 +1126,38 @@ pub fn plan(property: &str, tier: Tier) -> Option<Plan>
                 c.max_runs = 200;
                 items.push(item(c, "entity-only", &format!("D={d}")));
             }
+            // two reactive component types on the same entities (one poll walks the removal trackers of both types)
+            for order in ["ab", "ba"]
+            {
+                let ds: &[u32] = if q { &[3] } else { &[4, 5] };
+                for &d in ds
+                {
+                    let mut c = Config::base(&format!("C08/two-comps-{order}/D{d}"));
+                    c.actors = vec![Variant::Plain, Variant::Plain];
+                    c.n_ents = 2;
+                    let ra = Op::Register(0, Bundle::two(Trig::Removal(Comp::A), Trig::EntityRemoval(Comp::A, 1)), Mode::Persistent);
+                    let rb = Op::Register(1, Bundle::two(Trig::Removal(Comp::B), Trig::EntityRemoval(Comp::B, 0)), Mode::Persistent);
+                    c.setup = vec![Op::Insert(Comp::A, 0, 0), Op::Insert(Comp::B, 0, 0), Op::Insert(Comp::A, 1, 0), Op::Insert(Comp::B, 1, 0)];
+                    if order == "ab" { c.setup.push(ra); c.setup.push(rb); } else { c.setup.push(rb); c.setup.push(ra); }
+                    let alpha: AlphabetFn = Arc::new(move |_i: &DynInfo| {
+                        vec![
+                            Op::RemoveComp(Comp::A, 0), Op::RemoveComp(Comp::B, 0), Op::RemoveComp(Comp::A, 1), Op::RemoveComp(Comp::B, 1),
+                            Op::Insert(Comp::A, 0, 1), Op::Insert(Comp::B, 0, 1),
+                            Op::Despawn(0), Op::Clear(1), Op::Poll, Op::Run(0),
+                        ]
+                    });
+                    c.top = alpha.clone();
+                    c.script = alpha;
+                    c.max_top = d;
+                    c.budget = d;
+                    c.max_per_run = 2;
+                    c.final_gc = true;
+                    c.max_runs = 200;
+                    c.sym_actors = vec![];
+                    c.sym_ents = vec![];
+                    items.push(item(c, &format!("two-comps-{order}"), &format!("D={d}")));
+                }
+            }
             reports = vec!["C08"];
             rule = "histories of insert / remove / re-insert / despawn / recursive despawn of a parent (entity 1 is a child \
                 of entity 0) at top level and from inside reactor runs, with type-wide and entity-scoped removal \
@@ -972,10 +1177,14 @@ pub fn plan(property: &str, tier: Tier) -> Option<Plan>
         }
         "C14" =>
         {
-            let ns: &[u32] = if q { &[3] } else { &[3, 4, 5] };
+            for (route, world_route, single_route) in [("accessors", false, false), ("accessors-single", false, true), ("accessors-world", true, false)]
+            {
+            let ns: &[u32] = if q { &[3] } else if route == "accessors" { &[3, 4, 5] } else { &[3, 4] };
             for &n in ns
             {
-                let mut c = Config::base(&format!("C14/accessors/N{n}"));
+                let mut c = Config::base(&format!("C14/{route}/N{n}"));
+                c.world_route = world_route;
+                c.single_route = single_route;
                 c.actors = vec![Variant::Plain, Variant::Plain];
                 c.n_ents = 2;
                 c.setup = vec![
@@ -1021,7 +1230,8 @@ pub fn plan(property: &str, tier: Tier) -> Option<Plan>
                 c.budget = n;
                 c.max_per_run = 3;
                 c.max_runs = 300;
-                items.push(item(c, "accessors", &format!("N={n}")));
+                items.push(item(c, route, &format!("N={n}")));
+            }
             }
             // the registrations of this universe are fixed, so a dispatch-count mismatch is a trigger-count mismatch
             reports = vec!["C14", "C01"];
